@@ -520,6 +520,8 @@ _LONG = {
     'C19': ' One case in 150: components of 17-1030 coordinates (LineString, MultiPoint, ring as shell / hole, member of a MultiLineString or collection) whose extreme coordinates sit anywhere, the very last one included.',
     'C20': ' Results with 70 and 150+ members (unary_union and the four operations on two shifted grids of squares) must keep their member order.',
 }
+_LONG['C12'] = ' One case in 12: a collection of 2-4 valid members of different dimensions; interior_point must lie on a member of the highest dimension present (strictly inside an areal one).'
+_LONG['C19'] = _LONG.get('C19', '') + ' A function that fails on every coordinate and names it: try_map_coords and try_map_coords_in_place must both report the first coordinate of the traversal.'
 for _p, _t in _LONG.items():
     ADDENDA[_p] = ADDENDA.get(_p, '') + _t
 for _p, _t in ADDENDA.items():
